@@ -41,6 +41,9 @@ pub struct Sever {
     pub first_bytes: Mutex<Vec<u8>>,
     /// this pipe end has been dropped by whoever owned it (connection closed)
     pub dropped: AtomicBool,
+    /// armed hook: the next time this end has data to read, the hook runs first and the data is
+    /// handed to the reader one poll later (so that the reader's task finds both on one wake-up)
+    pub on_next_data: Mutex<Option<Box<dyn FnOnce() + Send>>>,
 }
 
 impl Sever {
@@ -73,11 +76,13 @@ pub struct NetIo {
     pending_every: usize,
     ops: usize,
     seq: usize,
+    /// data read ahead while running the `on_next_data` hook
+    stash: Vec<u8>,
 }
 
 impl NetIo {
     pub fn new(inner: DuplexStream, pattern: Vec<usize>, pending_every: usize) -> Self {
-        NetIo { inner: Some(inner), sever: Arc::new(Sever::default()), pattern, pending_every, ops: 0, seq: 0 }
+        NetIo { inner: Some(inner), sever: Arc::new(Sever::default()), pattern, pending_every, ops: 0, seq: 0, stash: vec![] }
     }
     fn limit(&mut self) -> Option<usize> {
         if self.pattern.is_empty() {
@@ -116,6 +121,34 @@ impl AsyncRead for NetIo {
         if this.sever.is_cut() {
             this.inner = None; // the peer sees EOF
             return Poll::Ready(Ok(())); // EOF
+        }
+        if !this.stash.is_empty() {
+            let n = this.stash.len().min(buf.remaining());
+            buf.put_slice(&this.stash[..n]);
+            this.stash.drain(..n);
+            return Poll::Ready(Ok(()));
+        }
+        if this.sever.on_next_data.lock().unwrap().is_some() {
+            if let Some(inner) = this.inner.as_mut() {
+                let mut tmp = vec![0u8; 16 * 1024];
+                let mut rb = ReadBuf::new(&mut tmp);
+                return match Pin::new(inner).poll_read(cx, &mut rb) {
+                    Poll::Ready(Ok(())) if !rb.filled().is_empty() => {
+                        this.stash = rb.filled().to_vec();
+                        if let Some(hook) = this.sever.on_next_data.lock().unwrap().take() {
+                            hook();
+                        }
+                        cx.waker().wake_by_ref();
+                        Poll::Pending
+                    }
+                    Poll::Ready(Ok(())) => Poll::Ready(Ok(())),
+                    Poll::Ready(Err(e)) => Poll::Ready(Err(e)),
+                    Poll::Pending => {
+                        this.sever.park(cx);
+                        Poll::Pending
+                    }
+                };
+            }
         }
         if this.maybe_pending(cx) {
             return Poll::Pending;
